@@ -452,3 +452,22 @@ Proof.
   destruct h; cbn [wrap_result]; destruct b; try lia;
     destruct (Z.ltb_spec 0 retry), stream; cbn [andb negb]; lia.
 Qed.
+
+(** whatever the state of the call's context (live, cancelled before or during the call,
+    deadline exceeded): an admitted call records exactly one result - a failure iff the
+    handler returned an error or panicked - and a rejected call records none *)
+Lemma wrapper_context_independent pol now cx h c :
+  wrap_call_ctx pol now cx h c = wrap_call pol now h c /\
+  wrap_records h = [match h with HOk => false | _ => true end] /\
+  (fst (cb_acquire pol now c) = true ->
+     snd (wrap_call_ctx pol now cx h c) =
+     snd (cb_record pol now (c_id (snd (cb_acquire pol now c)))
+            (classify pol (match h with HOk => false | _ => true end) 0) (snd (cb_acquire pol now c)))) /\
+  (fst (cb_acquire pol now c) = false ->
+     wrap_call_ctx pol now cx h c = (WShort, snd (cb_acquire pol now c))).
+Proof.
+  split; [reflexivity|]. split; [apply wrapper_one_record|].
+  unfold wrap_call_ctx. pose proof (wrapper_call_shape pol now h c) as S.
+  destruct (cb_acquire pol now c) as [ok c1]. cbn [fst snd]. rewrite S.
+  split; intro E; subst ok; reflexivity.
+Qed.
